@@ -292,12 +292,27 @@ func (c *Check) randC11(r *gen.Rand, run int, seed uint64) *plan.Plan {
 		p.Options = []plan.Opt{o}
 		var ops []plan.Op
 		for i := 0; i < r.Range(1, 5); i++ {
-			switch r.Intn(3) {
+			switch r.Intn(4) {
 			case 0, 1:
 				ops = append(ops, plan.Op{Op: "Reader", Doc: "d0", Opt: "o0", Reader: gen.RandReader(r, len(d.Bytes), r.Bool(), true)})
 			case 2:
 				fs := gen.RandFS(r, len(d.Bytes))
 				ops = append(ops, plan.Op{Op: "File", Doc: "d0", Opt: "o0", FS: fs})
+			case 3:
+				// the same bytes as a response body: net/http's own delivery (chunks, n>0 with EOF, reset mid-body)
+				np := gen.RandNet(r, len(d.Bytes), 0, false)
+				ct := "text/html"
+				np.CType = &ct
+				np.LatencyUs = 0
+				np.Body = gen.RandReader(r, len(d.Bytes), r.P(1, 3), false)
+				u := d.URL
+				if !strings.HasPrefix(u, "http") || strings.Contains(u, "#") {
+					u = "http://example.com/story/page/2"
+				}
+				if pu, err := nurl.ParseRequestURI(u); err != nil || pu.Host == "" {
+					u = "http://example.com/story/page/2"
+				}
+				ops = append(ops, plan.Op{Op: "URL", Doc: "d0", Opt: "o0", URL: u, Net: np})
 			}
 		}
 		p.Tasks = [][]plan.Op{ops}
